@@ -100,6 +100,8 @@ class WorldC05(World):
         self.ref = {}        # path -> ('ok', [species dicts], meta) | ('undefined',)
         self.failed_last = set()
         self.history = []    # (step, path, 'ack'|'fail')
+        self.ack_text = {}   # path -> durable text when the write was acknowledged
+        self.plan = []
         self.shape = {}      # path -> layout options and species count of the last acknowledged write
         self.last = None     # (descriptors, live Nasa objects) of the most recent write call
         self._live = None
@@ -197,6 +199,30 @@ class WorldC05(World):
         return f
 
     def gen_op(self, rng):
+        if self.plan:
+            return self.plan.pop(0)
+        op = self._gen_op0(rng)
+        if op['op'] == 'write' and op.get('fault') is None and rng.random() < 0.05:
+            # scripted: the disk fills up half-way through a write; the caller frees space and writes the same thing again;
+            # later the interpreter collects what the failed call left behind
+            import copy as _copy
+            first = _copy.deepcopy(op)
+            first['fault'] = {'kind': 'write_error', 'k': 0.5, 'errno': 'ENOSPC'}
+            first['args']['reuse'] = None
+            first['gc'] = False
+            second = _copy.deepcopy(first)
+            second['fault'] = None
+            for d_ in second['args']['species']:          # (other numbers than the failed attempt's)
+                d_['a_low'] = [v_ * 1.5 + 1.0 for v_ in d_['a_low']]
+                d_['a_high'] = [v_ * 0.5 - 1.0 for v_ in d_['a_high']]
+            third = _copy.deepcopy(second)
+            third['gc'] = True
+            self.plan = [second, third]
+            return first
+        op['gc'] = rng.random() < 0.6
+        return op
+
+    def _gen_op0(self, rng):
         sw = self.ctx.swarm
         c = rng.randrange(sw['n_clients'])
         path = rng.choice(sw['paths'])
@@ -469,6 +495,15 @@ class WorldC05(World):
                 ctx.probe('clock-jump-before-write')
         else:
             self.clock.advance(3)
+        if op.get('gc', True):
+            # handles an earlier failed call left open are finalised now; acknowledged files must not change by that
+            if fs.finalize_leaked():
+                ctx.probe('leaked-handle-finalised')
+            for pth, txt in sorted(self.ack_text.items()):
+                if self.ref.get(pth, ('x',))[0] == 'ok' and fs.durable(pth) != txt:
+                    raise Violation('acknowledged-file-changed-later', '%s was acknowledged complete and has changed since, '
+                                    'without being written again (a handle left open by an earlier failed call was flushed '
+                                    'late)' % pth)
         self._live = None
         if name in ('write', 'write_text', 'write_enum') and a.get('reuse'):
             if self.last is None:
@@ -615,6 +650,7 @@ class WorldC05(World):
                 ctx.probe('recovery-after-fault')
             self.failed_last.discard(path)
             self.ref[path] = ('ok', self._expected(a))
+            self.ack_text[path] = fs.durable(path)
             self.shape[path] = {'n': len(a['species']), 'write_date': a['write_date'], 'supp_txt': a.get('supp_txt'),
                                 'newline': a['newline']} if not a.get('supp') else None
             self.history.append((ctx.step, path, 'ack'))
@@ -632,6 +668,7 @@ class WorldC05(World):
             text = fs.durable(path)
             self._check_layout(text, a, a['newline'], 'write %s' % path, date8)
             self.ref[path] = ('ok', self._expected(a))
+            self.ack_text[path] = text
             self.failed_last.discard(path)
             return 'ack (fault not reached)'
         if st == 'ok':
@@ -646,6 +683,7 @@ class WorldC05(World):
                                 'write_thermdat returned normally although %s fired; file on disk is incomplete (%s)' % (
                                     kind, v.message[:200]))
             self.ref[path] = ('ok', self._expected(a))
+            self.ack_text[path] = text
             return 'ack despite fault'
         if kind.startswith('crash'):
             if st != 'crash':
@@ -660,6 +698,7 @@ class WorldC05(World):
                     kind, path))
         else:
             self.ref[path] = ('undefined',)
+            self.ack_text.pop(path, None)
         self.failed_last.add(path)
         self.history.append((ctx.step, path, 'fail'))
         return '%s %s' % (kind, st)
